@@ -95,7 +95,10 @@ def c1_light(m):
 def triples(m, level):
     """[(c1, c2, a, b)]; c2 in {ones, reversed c1} (the reversed vector only when it differs from c1)."""
     out = []
-    if level == "mild":  # mild, non-uniform scalings only (ladders L2 = {0.5, 2} and L1 = {0.1, 1, 10})
+    if level == "wide":  # a handful of scalings for the tall-and-wide matrices
+        full = c1_light(m)
+        c1s = full[:3] + full[-2:]
+    elif level == "mild":  # mild, non-uniform scalings only (ladders L2 = {0.5, 2} and L1 = {0.1, 1, 10})
         c1s = [c for c in itertools.product(A.L2, repeat=m) if len(set(c)) > 1] + [c for c in itertools.product(A.L1, repeat=m) if len(set(c)) > 1]
     else:
         c1s = c1_full(m) if level == "full" else c1_light(m)
@@ -137,7 +140,16 @@ def mats(src, m, n, seed):
     """Named, deterministic matrix lists (zero rows excluded: c -> diag(c) J ignores them anyway and ConFIG's unit rows need them non-zero)."""
     k = (src, m, n, seed if src.startswith(("dense", "generic")) else 0)
     if k not in _LISTS:
-        if src.startswith("illcond"):
+        if src.startswith("widetall"):
+            # more than 6 rows and thousands of columns (added after a seeded change: a rank-6 randomised SVD above 4096 columns): a generic
+            # well-conditioned m x m factor times m orthonormal rows spread over all n columns
+            i, j = np.meshgrid(np.arange(m), np.arange(m), indexing="ij")
+            B = np.round(np.sin(1.7 * i + 0.9 * j + 0.3) + 2.0 * (i == j), 3)
+            E = np.zeros((m, n))
+            for r in range(m):
+                E[r, r::m] = 1.0 / math.sqrt(len(range(r, n, m)))
+            L = [B @ E]
+        elif src.startswith("illcond"):
             # full row rank, condition number 50-200, mild entries (added after a seeded change - the Gramian rounded to float32 before
             # the QP - was missed: its effect needs cond >= 1e2 and mild scalings)
             L = []
@@ -211,6 +223,7 @@ def gen_cases(tier, seed):
         cases.append(dict(fam="native-seed", k=k_, seed=seed))
     for (m_, n_) in ((2, 2), (2, 3), (3, 3)):
         add("upgrad", "illcond", m_, n_, 1, "mild")
+    add("upgrad", "widetall", 8, 5000, 1, "wide")
     cases.append(dict(fam="bufreuse", seed=seed))  # one instance, one matrix buffer re-scaled / re-filled in place (mc/bufreuse.py)
     return cases
 
@@ -242,7 +255,10 @@ class Runner:
             Jt = torch.tensor(self.matrix(c), dtype=torch.float64)
             rp = DrawReplayer(script)
             try:
-                with rp:
+                if script:
+                    with rp:
+                        x = build()(Jt)
+                else:  # deterministic aggregator: nothing to replay, run natively (an unexpected draw must not end as a harness fault)
                     x = build()(Jt)
                 if not rp.exhausted:
                     raise HarnessError(f"draw script not exhausted: {rp.pos}/{len(rp.script)}")
